@@ -24,6 +24,16 @@ pub enum Kind {
     FetchAdd,
     FetchSub,
     CasWeak,
+    /// Strong compare-exchange (never fails spuriously).
+    Cas,
+    /// Any other read-modify-write (`fetch_and`, `fetch_or`, `fetch_xor`,
+    /// `fetch_nand`, `fetch_max`, `fetch_min`).
+    FetchRmw,
+    /// `try_lock` / `try_read` / `try_write`: never blocks; the outcome's
+    /// `ok` says whether the lock was obtained.
+    MutexTryLock,
+    RwTryRead,
+    RwTryWrite,
     MutexLock,
     MutexUnlock,
     RwRead,
@@ -220,6 +230,121 @@ macro_rules! atomic_wrapper {
                 }
             }
 
+            pub fn get_mut(&mut self) -> &mut $prim {
+                self.inner.get_mut()
+            }
+
+            pub fn into_inner(self) -> $prim {
+                self.inner.into_inner()
+            }
+
+            fn rmw(
+                &self,
+                val: $prim,
+                o: Ordering,
+                std_op: impl Fn(&$std, $prim, Ordering) -> $prim,
+                model: impl Fn($prim, $prim) -> $prim,
+            ) -> $prim {
+                match hook() {
+                    None => std_op(&self.inner, val, o),
+                    Some(h) => {
+                        let e = ev(self.addr(), Kind::FetchRmw, o, val as u64);
+                        h.before(&e);
+                        let old = std_op(&self.inner, val, o);
+                        h.after(
+                            &e,
+                            &Outcome {
+                                old: old as u64,
+                                new: model(old, val) as u64,
+                                ok: true,
+                            },
+                        );
+                        old
+                    }
+                }
+            }
+
+            pub fn fetch_and(&self, val: $prim, o: Ordering) -> $prim {
+                self.rmw(val, o, |a, v, o| a.fetch_and(v, o), |a, b| a & b)
+            }
+
+            pub fn fetch_or(&self, val: $prim, o: Ordering) -> $prim {
+                self.rmw(val, o, |a, v, o| a.fetch_or(v, o), |a, b| a | b)
+            }
+
+            pub fn fetch_xor(&self, val: $prim, o: Ordering) -> $prim {
+                self.rmw(val, o, |a, v, o| a.fetch_xor(v, o), |a, b| a ^ b)
+            }
+
+            pub fn fetch_nand(&self, val: $prim, o: Ordering) -> $prim {
+                self.rmw(val, o, |a, v, o| a.fetch_nand(v, o), |a, b| !(a & b))
+            }
+
+            pub fn fetch_max(&self, val: $prim, o: Ordering) -> $prim {
+                self.rmw(val, o, |a, v, o| a.fetch_max(v, o), |a, b| a.max(b))
+            }
+
+            pub fn fetch_min(&self, val: $prim, o: Ordering) -> $prim {
+                self.rmw(val, o, |a, v, o| a.fetch_min(v, o), |a, b| a.min(b))
+            }
+
+            pub fn fetch_update<F>(
+                &self,
+                set_order: Ordering,
+                fetch_order: Ordering,
+                mut f: F,
+            ) -> Result<$prim, $prim>
+            where
+                F: FnMut($prim) -> Option<$prim>,
+            {
+                let mut prev = self.load(fetch_order);
+                while let Some(next) = f(prev) {
+                    match self.compare_exchange_weak(prev, next, set_order, fetch_order) {
+                        x @ Ok(_) => return x,
+                        Err(next_prev) => prev = next_prev,
+                    }
+                }
+                Err(prev)
+            }
+
+            pub fn compare_exchange(
+                &self,
+                current: $prim,
+                new: $prim,
+                success: Ordering,
+                failure: Ordering,
+            ) -> Result<$prim, $prim> {
+                match hook() {
+                    None => self.inner.compare_exchange(current, new, success, failure),
+                    Some(h) => {
+                        let e = Event {
+                            addr: self.addr(),
+                            kind: Kind::Cas,
+                            success,
+                            failure,
+                            operand: new as u64,
+                            expected: current as u64,
+                        };
+                        h.before(&e);
+                        let r = self.inner.compare_exchange(current, new, success, failure);
+                        let o = match r {
+                            Ok(old) => Outcome {
+                                old: old as u64,
+                                new: new as u64,
+                                ok: true,
+                            },
+                            Err(old) => Outcome {
+                                old: old as u64,
+                                new: old as u64,
+                                ok: false,
+                            },
+                        };
+                        h.after(&e, &o);
+                        r
+                    }
+                }
+            }
+
             pub fn compare_exchange_weak(
                 &self,
                 current: $prim,
@@ -271,6 +396,52 @@ macro_rules! atomic_wrapper {
 
 atomic_wrapper!(AtomicU64, std::sync::atomic::AtomicU64, u64);
 atomic_wrapper!(AtomicI64, std::sync::atomic::AtomicI64, i64);
+
+impl Default for AtomicU64 {
+    fn default() -> Self {
+        Self::new(0)
+    }
+}
+
+impl Default for AtomicI64 {
+    fn default() -> Self {
+        Self::new(0)
+    }
+}
+
+impl From<u64> for AtomicU64 {
+    fn from(v: u64) -> Self {
+        Self::new(v)
+    }
+}
+
+impl From<i64> for AtomicI64 {
+    fn from(v: i64) -> Self {
+        Self::new(v)
+    }
+}
+
+/// A non-blocking acquisition attempt: one scheduling point, then the attempt;
+/// the hook learns from the outcome whether the lock is now held.
+fn try_event<R>(addr: usize, kind: Kind, attempt: impl FnOnce() -> Option<R>) -> Option<R> {
+    match hook() {
+        None => attempt(),
+        Some(h) => {
+            let e = ev(addr, kind, Ordering::SeqCst, 0);
+            h.before(&e);
+            let r = attempt();
+            h.after(
+                &e,
+                &Outcome {
+                    old: 0,
+                    new: 0,
+                    ok: r.is_some(),
+                },
+            );
+            r
+        }
+    }
+}
 
 fn lock_event(addr: usize, kind: Kind) {
     if let Some(h) = hook() {
@@ -332,6 +503,47 @@ impl<T> Mutex<T> {
         };
         lock_done(addr, Kind::MutexLock);
         r
+    }
+
+    pub fn try_lock(&self) -> std::sync::TryLockResult<MutexGuard<'_, T>> {
+        let addr = self as *const Self as usize;
+        let mut poisoned = false;
+        let g = try_event(addr, Kind::MutexTryLock, || match self.inner.try_lock() {
+            Ok(g) => Some(g),
+            Err(std::sync::TryLockError::Poisoned(p)) => {
+                poisoned = true;
+                Some(p.into_inner())
+            }
+            Err(std::sync::TryLockError::WouldBlock) => None,
+        });
+        match g {
+            None => Err(std::sync::TryLockError::WouldBlock),
+            Some(g) => {
+                let guard = MutexGuard {
+                    guard: Some(g),
+                    addr,
+                };
+                if poisoned {
+                    Err(std::sync::TryLockError::Poisoned(
+                        std::sync::PoisonError::new(guard),
+                    ))
+                } else {
+                    Ok(guard)
+                }
+            }
+        }
+    }
+
+    pub fn get_mut(&mut self) -> std::sync::LockResult<&mut T> {
+        self.inner.get_mut()
+    }
+
+    pub fn into_inner(self) -> std::sync::LockResult<T> {
+        self.inner.into_inner()
+    }
+
+    pub fn is_poisoned(&self) -> bool {
+        self.inner.is_poisoned()
     }
 }
 
@@ -405,6 +617,36 @@ impl<T> RwLock<T> {
             guard: Some(g),
             addr,
         }
+    }
+
+    pub fn read_recursive(&self) -> RwLockReadGuard<'_, T> {
+        self.read()
+    }
+
+    pub fn try_read(&self) -> Option<RwLockReadGuard<'_, T>> {
+        let addr = self as *const Self as usize;
+        try_event(addr, Kind::RwTryRead, || self.inner.try_read()).map(|g| RwLockReadGuard {
+            guard: Some(g),
+            addr,
+        })
+    }
+
+    pub fn try_write(&self) -> Option<RwLockWriteGuard<'_, T>> {
+        let addr = self as *const Self as usize;
+        try_event(addr, Kind::RwTryWrite, || self.inner.try_write()).map(|g| {
+            RwLockWriteGuard {
+                guard: Some(g),
+                addr,
+            }
+        })
+    }
+
+    pub fn get_mut(&mut self) -> &mut T {
+        self.inner.get_mut()
+    }
+
+    pub fn into_inner(self) -> T {
+        self.inner.into_inner()
     }
 }
 
